@@ -230,10 +230,14 @@ func (p *Pool) Put(x interface{}) {
 		p.real.Put(x)
 		return
 	}
+	// The object is in the pool from the moment the explorer schedules this operation; until then this thread may be
+	// parked here while others run, and what it wrote to x is not yet published: the release edge is created after
+	// the point (nothing else runs between the point's return and the release). Releasing before the point would hide,
+	// from the race detector, another thread that holds the same object because it was put twice.
+	vsched.Point(vsched.KPut, uintptr(unsafe.Pointer(p)), x)
 	if t := tokOf(x); t != nil {
 		vsched.RaceReleaseMerge(t)
 	}
-	vsched.Point(vsched.KPut, uintptr(unsafe.Pointer(p)), x)
 }
 
 // Once ----------------------------------------------------------------------------------------
